@@ -54,7 +54,7 @@ def good_sargs(rng):
     if k == 0: return ('member', rng.choice(MEMBERS))
     if k == 1: return ('str', rng.choice(['red', 'Bold', 'bg-blue', 'fg red', 'faint', 'no_bold_faint', 'blue',
                                           'underline', 'double underline', 'fg_default', 'italic', 'UL_Blue']))
-    if k == 2: return ('int', rng.choice([1, 2, 22, 31, 34, 39, 4, 21, 24, 42, 3, 10, 12, 53, 77, 256]))
+    if k == 2: return ('int', rng.choice([1, 2, 22, 31, 34, 39, 4, 21, 24, 42, 3, 10, 12, 53, 77, 256, 90, 97, 100, 107, 49, 51, 52, 54, 55, 59, 26, 50]))
     if k == 3: return ('str', rng.choice(['31', '1;31', '38;5;214', '4;58;2;1;2;3', '38;2;1;2;3;1', '22', '01;034']))
     if k == 4: return ('str', rng.choice(['[38;5;214', '[1', '[31', '[1;31', '[38;5;300', '[ 1', '[22', '[10', '[1 ', '[ 38;5;200',
                                           '[48 ;2;1;2;3', '[ 31 ; 1', '[\t4', '[01', '[4 ;58;5; 9', '[[1', '[[[38;5;1', '[[']))
@@ -482,6 +482,10 @@ class Runner:
                 break
             if Nref is None:
                 Nref = O.texts(added)
+                exp = simple_texts(a, self.mod)
+                if exp is not None and Nref != exp:
+                    viol.append(('C06', 'apply_order', 'i=%d: %r gives the settings %r, in the order given they are %r' % (i, a, Nref, exp)))
+                    break
                 if a[0] == 'obj' and Nref != [P.obj_text(a[1])]:
                     viol.append(('C06', 'apply_inside_adds', 'i=%d: the setting %r was to be added, new on this character: %r' % (i, P.obj_text(a[1]), Nref)))
                     break
@@ -1575,7 +1579,9 @@ class Runner:
     def op_twin(self):
         rng = self.rng
         x = self.pick()
+        exotic = False
         if rng.random() < 0.2:
+            exotic = True
             # a value only the twin sees: blanks that `str` strips/splits on but the library's own set does not
             # contain (no model step is involved here: the Lean model knows ASCII blanks only)
             t = ''.join(rng.choice('ab \xa0\x85\u2003\x1c\t\n\u3000c') for _ in range(rng.randint(1, 9)))
@@ -1654,7 +1660,8 @@ class Runner:
             ('ljust', (w, '*'), {}), ('rjust', (w, '*'), {}), ('center', (w, '*'), {}), ('zfill', (w,), {}),
             ('ljust', (w,), {}), ('center', (n + 4,), {}),
             ('strip', (), {}), ('lstrip', ('a ',), {}), ('rstrip', (), {}), ('strip', (x._s[:1] + x._s[-1:],), {}),
-            ('removeprefix', (x._s[:1],), {}), ('removesuffix', (x._s[-1:],), {}),
+            ('removeprefix', (x._s[:1],), {}), ('removesuffix', (x._s[-1:],), {}), ('removeprefix', ('',), {}), ('removesuffix', ('',), {}),
+            ('removesuffix', (x._s[-2:],), {}), ('lstrip', (), {}), ('rstrip', (' \t',), {}), ('strip', (None,), {}),
             ('replace', (pat, 'Q', rng.choice([-1, 1])), {}), ('replace', (pat, other[1]), {}),
             ('split', (rng.choice([None, pat or None]),), {}), ('rsplit', (None, 1), {}), ('splitlines', (), {}),
             ('split', (pat or None, 1), {}), ('splitlines', (True,), {}), ('split', (None, 0), {}), ('rsplit', (None, 0), {}),
@@ -1714,7 +1721,10 @@ class Runner:
                     viol.append(('C13', 'ansistr_op_eq', nm_ + ' with AnsiStr arguments differs from the same call with their AnsiString values'))
         if same(a, x, 'receiver after join'):
             viol.append(('C13', 'ansistr_immutable', 'join'))
-        for name, args, kw in rng.sample(calls, 12):
+        chosen = rng.sample(calls, 12)
+        if exotic:
+            chosen += [c_ for c_ in calls if c_[0] in ('strip', 'lstrip', 'rstrip', 'split', 'rsplit', 'splitlines') and c_[1][:1] in ((), (None,))]
+        for name, args, kw in chosen:
             self.stats['ops']['twin.' + name] = self.stats['ops'].get('twin.' + name, 0) + 1
             xc = x.copy()
             inplace_names = {'apply_formatting', 'remove_formatting', 'clear_formatting', 'simplify', 'format_matching', 'unformat_matching', 'apply_formatting_for_match'}
@@ -1895,6 +1905,28 @@ def exhaustive(runner, family, nbases=120):
     for k, st in enumerate(runner.steps):
         if st.hist is None:
             st.hist, st.idx = -3, k
+
+SIMPLE_CODES = set([1, 2, 3, 4, 5, 6, 7, 8, 9, 21, 22, 23, 24, 25, 27, 28, 29, 39, 49, 53, 55]) | set(range(30, 38)) | set(range(40, 48)) \
+    | set(range(90, 98)) | set(range(100, 108)) | set(range(11, 21))
+
+def simple_texts(a, mod):
+    """For a list/tuple of single-code ints and members with exactly one single-code setting (no colour
+    functions, no reset, nothing that could fuse with a neighbour): the setting texts in the order given —
+    "later in the list = later in precedence".  None when the argument is not of that simple kind."""
+    if a[0] not in ('list', 'tuple') or not a[1]:
+        return None
+    out = []
+    for q in a[1]:
+        if q[0] == 'int' and q[1] in SIMPLE_CODES:
+            out.append(str(q[1]))
+        elif q[0] == 'member':
+            ts = [str(s_) for s_ in mod.AnsiFormat[q[1]].ansi_settings]
+            if len(ts) != 1 or not ts[0].isdigit() or int(ts[0]) not in SIMPLE_CODES:
+                return None
+            out.append(ts[0])
+        else:
+            return None
+    return out
 
 def a_truthy(a):
     t = a[0]
